@@ -31,7 +31,7 @@ ASSUMPTIONS = [
     "termination bound 20 s per query",
 ]
 PROFILE = {
-    "quick": dict(examples=400, shards=16, budget_s=85),
+    "quick": dict(examples=1600, shards=16, budget_s=85),
     "thorough": dict(examples=2500, shards=16, budget_s=1100),
 }
 
